@@ -6,7 +6,7 @@
 (* never compares payloads of different kinds):                            *)
 (*   <<0,0>> null            <<1,n>> Integer       <<2,<<num,den>>>> Number*)
 (*   <<3,b>> Boolean         <<4,cps>> String (sequence of code points)    *)
-(*   <<5,d>> Date (day ordinal)   <<6,<<y,ind,n>>>> Time_Period            *)
+(*   <<5,<<d,s>>>> Date (day ordinal, second of day)  <<6,<<y,i,n>>>> period *)
 (*   <<7,<<d1,d2>>>> Time    <<8,k>> Duration (1..6: D W M Q S A)          *)
 (*   <<9,code>> error marker (an operation VTL defines as an error)        *)
 (*   <<11,0>>  "some non-null Number" (uninterpreted transcendental result)*)
@@ -141,7 +141,10 @@ CmpSeq(s, t) == IF s = <<>> THEN (IF t = <<>> THEN 0 ELSE -1)
 Cmp(a, b) == IF IsNumTag(a) /\ IsNumTag(b) THEN CmpNum(a, b)
              ELSE IF a[1] = 4 THEN CmpSeq(a[2], b[2])
              ELSE IF a[1] = 3 THEN (IF a[2] = b[2] THEN 0 ELSE IF b[2] THEN -1 ELSE 1)
-             ELSE IF a[1] = 5 \/ a[1] = 8 THEN (IF a[2] < b[2] THEN -1 ELSE IF a[2] = b[2] THEN 0 ELSE 1)
+             ELSE IF a[1] = 5 THEN      \* Date: <<day ordinal, second of day>>, lexicographic
+                 (IF a[2][1] < b[2][1] THEN -1 ELSE IF a[2][1] > b[2][1] THEN 1
+                  ELSE IF a[2][2] < b[2][2] THEN -1 ELSE IF a[2][2] = b[2][2] THEN 0 ELSE 1)
+             ELSE IF a[1] = 8 THEN (IF a[2] < b[2] THEN -1 ELSE IF a[2] = b[2] THEN 0 ELSE 1)
              ELSE IF a = b THEN 0 ELSE 2      \* other kinds: only (in)equality is meaningful
 EqV(a, b) == Strict2(a, b, LAMBDA x, y : B(Cmp(x, y) = 0))
 NeV(a, b) == Strict2(a, b, LAMBDA x, y : B(Cmp(x, y) # 0))
